@@ -7,7 +7,7 @@ use std::panic::{catch_unwind, AssertUnwindSafe};
 
 pub struct Expand;
 
-const ALPHA: [&str; 14] = ["$", "{", "}", "\\", "g", "<", ">", "0", "1", "9", "x", "_", "é", " "];
+const ALPHA: [&str; 15] = ["$", "{", "}", "\\", "g", "<", ">", "0", "1", "9", "x", "_", "é", " ", "-"];
 
 fn is_id(c: char) -> bool {
     c.is_alphanumeric() || c == '_'
